@@ -6,6 +6,7 @@ import (
 	"io"
 	"os"
 	"path/filepath"
+	"strings"
 	"time"
 
 	zz "github.com/krotik/ecal/zzverif"
@@ -38,7 +39,10 @@ func c20Read(f *os.File, b []byte) (int, error) {
 	c20Off += n
 	return n, nil
 }
-func c20Seek(f *os.File, off int64, whence int) (int64, error) { c20Off = int(off); return off, nil }
+func c20Seek(f *os.File, off int64, whence int) (int64, error) {
+	c20Off = int(off)
+	return off, nil
+}
 func c20Close(f *os.File) error                               { return nil }
 func c20Section(r io.ReaderAt, off, n int64) *io.SectionReader { return nil }
 func c20Run(reader io.ReaderAt, size int64) (interface{}, error) {
@@ -105,4 +109,295 @@ func c20Native(filler []byte) {
 	handleError = func(e error) {}
 	RunPackedBinary()
 	zz.Assert(exited, "C20.embedded-archive-found-and-started")
+}
+
+// ---- project tree harness ----
+
+type c20Ent struct {
+	name string
+	dir  bool
+	size int64
+}
+
+func (e c20Ent) Name() string       { return e.name }
+func (e c20Ent) Size() int64        { return e.size }
+func (e c20Ent) Mode() os.FileMode  { return 0644 }
+func (e c20Ent) ModTime() time.Time { return time.Time{} }
+func (e c20Ent) IsDir() bool        { return e.dir }
+func (e c20Ent) Sys() interface{}   { return nil }
+
+var c20Files map[string][]byte     // modelled project tree: file path -> content
+var c20Dirs map[string][]c20Ent    // directory path -> entries in name order
+var c20Source []byte               // the interpreter binary that is packed
+
+func c20ReadDir(dir string) ([]os.FileInfo, error) {
+	ents, ok := c20Dirs[dir]
+	if !ok {
+		return nil, os.ErrNotExist
+	}
+	var res []os.FileInfo
+	for _, e := range ents {
+		res = append(res, e)
+	}
+	return res, nil
+}
+func c20ReadFile(name string) ([]byte, error) {
+	b, ok := c20Files[name]
+	if !ok {
+		return nil, os.ErrNotExist
+	}
+	return append([]byte(nil), b...), nil
+}
+func c20Create(name string) (*os.File, error) { c20Content = nil; return nil, nil }
+func c20Copy(dst io.Writer, src io.Reader) (int64, error) {
+	c20Content = append(c20Content, c20Source...)
+	return int64(len(c20Source)), nil
+}
+func c20Write(f *os.File, b []byte) (int, error) {
+	c20Content = append(c20Content, b...)
+	return len(b), nil
+}
+func c20WriteString(f *os.File, s string) (int, error) {
+	c20Content = append(c20Content, s...)
+	return len(s), nil
+}
+func c20Chmod(name string, m os.FileMode) error { return nil }
+func c20SectionReal(r io.ReaderAt, off, n int64) *io.SectionReader {
+	if _, isFile := r.(*os.File); !isFile {
+		return io.NewSectionReader(r, off, n) // a section of something else (the zip reader makes its own)
+	}
+	return io.NewSectionReader(bytes.NewReader(c20Content), off, n)
+}
+// The deflate codec is replaced by an identity codec in the symbolic run; what is kept of it is the io.Reader
+// contract: a Read of the "decompressor" delivers at most c20Chunk bytes however large the buffer is (the real
+// inflater delivers at most its 32 KiB window per call).
+var c20Chunk = 7
+
+type c20NopWriter struct{ w io.Writer }
+
+func (n c20NopWriter) Write(p []byte) (int, error) { return n.w.Write(p) }
+func (n c20NopWriter) Close() error                { return nil }
+
+type c20ShortReader struct{ r io.Reader }
+
+func (s c20ShortReader) Read(p []byte) (int, error) {
+	if len(p) > c20Chunk {
+		p = p[:c20Chunk]
+	}
+	return s.r.Read(p)
+}
+func (s c20ShortReader) Close() error { return nil }
+
+func c20Compressor(method uint16) zip.Compressor {
+	return func(w io.Writer) (io.WriteCloser, error) { return c20NopWriter{w}, nil }
+}
+func c20Decompressor(method uint16) zip.Decompressor {
+	return func(r io.Reader) io.ReadCloser { return c20ShortReader{r} }
+}
+
+// c20Module: an ECAL source of exactly size bytes (size >= 16) defining v (a string of size-16 bytes) and t (= id).
+func c20Module(id, size int) []byte {
+	b := []byte("v := \"")
+	for i := 0; i < size-16; i++ {
+		b = append(b, byte('a'+(i*i/7+i/3+id)%26))
+	}
+	b = append(b, "\"\nt := "...)
+	b = append(b, byte('0'+id), '\n')
+	return b
+}
+
+var c20Sizes = []int{16, 17, 22, 23, 24, 64, 200, 600}
+
+// VerifC20Tree: the real Pack (packFiles over a modelled project tree, real zip writer and deflate) appends marker and
+// archive to a source binary; the real RunPackedBinary scans the result, unpacks it with the real zip reader into the
+// import locator and runs the entry file, whose exit code is the sum of every module's tag and string length read back
+// through imports by relative path.  Tree shape (same base name in two directories, nesting, empty file, empty
+// directory, binary file), the size class of the large module and the source-binary length are symbolic choices.
+func VerifC20Tree() {
+	shape := zz.Choice("shape", 4)
+	big := c20Sizes[zz.Choice("size", zz.Param("SIZES", 6))]
+	c20Chunk = zz.Param("CHUNK", 7)
+	srcLen := []int{0, 5, 4090}[zz.Choice("binlen", 3)]
+	type fileT struct {
+		path string
+		id   int
+		size int
+	}
+	var files []fileT
+	switch shape {
+	case 0:
+		files = []fileT{{"a.ecal", 1, big}}
+	case 1:
+		files = []fileT{{"a.ecal", 1, big}, {"d/a.ecal", 2, 40}}
+	case 2:
+		files = []fileT{{"a.ecal", 1, 33}, {"d/e/b.ecal", 2, big}, {"d/empty.ecal", 0, 0}}
+	case 3:
+		files = []fileT{{"a.ecal", 1, big}, {"z.bin", 0, -1}, {"d/e/f/c.ecal", 3, 16}}
+	}
+	if zz.Native() {
+		// the native run uses the real deflate codec, whose reader delivers at most its 32 KiB window per Read: sizes
+		// are scaled so that a module longer than the model's chunk is longer than that window
+		for i := range files {
+			if files[i].size > 0 {
+				files[i].size *= 32768/c20Chunk + 1
+			}
+		}
+	}
+	entry := ""
+	want := 0
+	checks := ""
+	ret := "bad"
+	for i, f := range files {
+		if f.size > 0 {
+			n := string(rune('0' + i))
+			m := c20Module(f.id, f.size)
+			entry += "import \"" + f.path + "\" as f" + n + "\n"
+			checks += "if f" + n + ".v != " + string(m[5:f.size-9]) + " {\n    bad := 9999\n}\n"
+			ret += " + f" + n + ".t"
+			want += f.id
+		}
+	}
+	entry += "bad := 0\n" + checks + ret + "\n"
+	content := func(f fileT) []byte {
+		switch {
+		case f.size > 0:
+			return c20Module(f.id, f.size)
+		case f.size == 0:
+			return []byte{}
+		}
+		return []byte{0, 1, 2, 0xff, 0xfe, '#', '\n', 0x80, 'P', 'K', 3, 4}
+	}
+	if zz.Native() {
+		c20NativeTree(srcLen, entry, want, func(put func(string, []byte)) {
+			for _, f := range files {
+				put(f.path, content(f))
+			}
+		}, shape == 3)
+		return
+	}
+	c20Files = map[string][]byte{"root/main.ecal": []byte(entry)}
+	c20Dirs = map[string][]c20Ent{"root": nil}
+	addEnt := func(dir string, e c20Ent) {
+		for _, x := range c20Dirs[dir] {
+			if x.name == e.name {
+				return
+			}
+		}
+		l := append(c20Dirs[dir], e)
+		for i := len(l) - 1; i > 0 && l[i].name < l[i-1].name; i-- {
+			l[i], l[i-1] = l[i-1], l[i]
+		}
+		c20Dirs[dir] = l
+	}
+	addEnt("root", c20Ent{"main.ecal", false, int64(len(entry))})
+	for _, f := range files {
+		dir := "root"
+		rest := f.path
+		for {
+			i := strings.Index(rest, "/")
+			if i < 0 {
+				break
+			}
+			addEnt(dir, c20Ent{rest[:i], true, 0})
+			dir += "/" + rest[:i]
+			if _, ok := c20Dirs[dir]; !ok {
+				c20Dirs[dir] = nil
+			}
+			rest = rest[i+1:]
+		}
+		c := content(f)
+		addEnt(dir, c20Ent{rest, false, int64(len(c))})
+		c20Files["root/"+f.path] = c
+	}
+	if shape == 3 {
+		addEnt("root", c20Ent{"hollow", true, 0})
+		c20Dirs["root/hollow"] = nil
+	}
+	c20Source = make([]byte, srcLen)
+	for i := range c20Source {
+		c20Source[i] = "x#\n"[i%3]
+	}
+	zz.Replace("path/filepath.Abs", c20Abs)
+	zz.Replace("github.com/krotik/common/fileutil.PathExists", c20Exists)
+	zz.Replace("os.Stat", c20Stat)
+	zz.Replace("os.Open", c20Open)
+	zz.Replace("os.Create", c20Create)
+	zz.Replace("os.Chmod", c20Chmod)
+	zz.Replace("io.Copy", c20Copy)
+	zz.Replace("io/ioutil.ReadDir", c20ReadDir)
+	zz.Replace("io/ioutil.ReadFile", c20ReadFile)
+	zz.Replace("(*os.File).Read", c20Read)
+	zz.Replace("(*os.File).Write", c20Write)
+	zz.Replace("(*os.File).WriteString", c20WriteString)
+	zz.Replace("(*os.File).Seek", c20Seek)
+	zz.Replace("(*os.File).Close", c20Close)
+	zz.Replace("io.NewSectionReader", c20SectionReal)
+	zz.Replace("archive/zip.compressor", c20Compressor)
+	zz.Replace("archive/zip.decompressor", c20Decompressor)
+	dir, src, target := "root", "src.bin", "out.bin"
+	var log bytes.Buffer
+	p := &CLIPacker{EntryFile: "root/main.ecal", Dir: &dir, SourceBinary: &src, TargetBinary: &target, LogOut: &log}
+	err := p.Pack()
+	zz.Reach("packed")
+	zz.Assert(err == nil, "C20.pack-succeeds")
+	c20Off = 0
+	osArgs = []string{"out.bin"}
+	exited, code := false, -1
+	osExit = func(c int) { exited, code = true, c }
+	var herr error
+	handleError = func(e error) { herr = e }
+	osStderr = &log
+	RunPackedBinary()
+	zz.Reach("ran")
+	if herr != nil {
+		println("C20 tree: handleError:", herr.Error())
+	}
+	if !exited || code != want {
+		println("C20 tree: exited", exited, "code", code, "want", want, "log:", log.String())
+	}
+	zz.Assert(herr == nil && exited, "C20.embedded-program-found-and-run")
+	zz.Assert(code == want, "C20.every-packed-file-recovered-under-its-relative-path")
+}
+
+// c20NativeTree: the same tree on the real file system with the real Pack and RunPackedBinary.
+func c20NativeTree(srcLen int, entry string, want int, fill func(put func(string, []byte)), hollow bool) {
+	tmp, err := os.MkdirTemp("", "c20t")
+	if err != nil {
+		panic(err)
+	}
+	defer os.RemoveAll(tmp)
+	root := filepath.Join(tmp, "root")
+	os.MkdirAll(root, 0755)
+	os.WriteFile(filepath.Join(root, "main.ecal"), []byte(entry), 0644)
+	fill(func(p string, c []byte) {
+		os.MkdirAll(filepath.Dir(filepath.Join(root, p)), 0755)
+		os.WriteFile(filepath.Join(root, p), c, 0644)
+	})
+	if hollow {
+		os.MkdirAll(filepath.Join(root, "hollow"), 0755)
+	}
+	srcb := make([]byte, srcLen)
+	for i := range srcb {
+		srcb[i] = "x#\n"[i%3]
+	}
+	src, target := filepath.Join(tmp, "src.bin"), filepath.Join(tmp, "out.bin")
+	os.WriteFile(src, srcb, 0755)
+	var log bytes.Buffer
+	p := &CLIPacker{EntryFile: filepath.Join(root, "main.ecal"), Dir: &root, SourceBinary: &src, TargetBinary: &target, LogOut: &log}
+	zz.Assert(p.Pack() == nil, "C20.pack-succeeds")
+	osArgs = []string{target}
+	exited, code := false, -1
+	osExit = func(c int) { exited, code = true, c }
+	var herr error
+	handleError = func(e error) { herr = e }
+	osStderr = &log
+	RunPackedBinary()
+	if code != want || herr != nil {
+		println("C20 native tree: code", code, "want", want, "exited", exited, "log:", log.String())
+		if herr != nil {
+			println("error:", herr.Error())
+		}
+	}
+	zz.Assert(herr == nil && exited, "C20.embedded-program-found-and-run")
+	zz.Assert(code == want, "C20.every-packed-file-recovered-under-its-relative-path")
 }
